@@ -7,6 +7,8 @@ COMMON_ASSUME = [
     "hooks compiled in with --cfg rust_vmm_acpi_tables_verif are pure pass-throughs (MANIFEST.hooks)",
     "CBMC 6.11 / cadical / z3 4.8.12 are sound; --max-field-sensitivity-array-size 1024",
     "no stubs of crate code; allocation cannot fail (--no-malloc-may-fail, Kani default)",
+    "CBMC's pointer / array-bounds instrumentation is off (what Kani's --no-memory-safety-checks does): the crate has no unsafe code; Rust-level bounds checks, overflow checks and asserts are kept",
+    "cargo kani is used for code generation only (--only-codegen --no-assertion-reach-checks); goto-cc / goto-instrument / cbmc are run by lib/runner.py with Kani 0.68's own command lines",
 ]
 
 PROPS = {}
@@ -49,7 +51,7 @@ prop("C02",
 prop("C03",
      level_text="A harness-side specification walk (first-entry offset and length-field position/width per table from the ACPI/CXL/RISC-V specs) over the emitted image of every enumerated add sequence; visited type codes, count fields, per-entry element counts, array offsets and string lengths compared with what was added. " + K,
      level_note=TRUST + " The walker is written from the specifications, not from the crate.",
-     bounds="13 tables with variable bodies; sequences as C01; sub-elements 0..=3; ISA strings of length 0,1,2,3,6; platform names 0,3,4",
+     bounds="13 tables with variable bodies; sequences as C01; sub-elements 0..=3; ISA strings of length 0,1,2,3,6; platform names 0,3,4; plus 38 concrete twins (fx::q_fx_*: every kind twice with identical all-zero / all-one entries, OEM symbolic) as a net for changes that make the entry count depend on entry values",
      outside="more than 3 sub-elements per entry; strings longer than 6; RQSC with >= 2 resources", jobs=14, timeout=900, mir=None)
 prop("C04",
      level_text="Whole-image comparison with specification-derived reference encoders (kinds.rs / fixed.rs) for every table header form and every entry kind, every scalar symbolic over its full type, every enum over all variants, optional parts present and absent. " + K,
@@ -77,8 +79,8 @@ prop("C08",
 prop("C09",
      level_text="Encoding half decided symbolically (segments over all byte values through the Path hook, counts 1..=4 quick, 5/16/254/255 thorough); scanning half (Path::new) executed on enumerated concrete strings including every malformed-segment position. " + K,
      level_note=TRUST + " No universality over string contents is claimed for the scanner (DESIGN 2.6).",
-     bounds="segment counts 1,2,3,4 (+5,16,254,255); scanner strings < 16 bytes not ending in a separator",
-     outside="Path::new over arbitrary contents; strings >= 16 bytes or ending in '.'", jobs=14, timeout=600, mir=None)
+     bounds="segment counts 1,2,3,4 (+5,16,254,255); scanner: 51 enumerated strings < 16 bytes (one wrong-length segment at every position, several wrong-length segments filling whole strides, leading / doubled / trailing separators, root only)",
+     outside="Path::new over arbitrary contents (symbolic contents of even 4 bytes: no verdict, 5 GB); strings >= 16 bytes", jobs=14, timeout=600, mir=None)
 prop("C10",
      level_text="Reference encoder per descriptor kind with all arguments symbolic inside the documented domain; template lemma with opaque children; walk of real-descriptor templates by their own length fields; width boundaries via concrete-size blobs. " + K,
      level_note=TRUST, bounds="7 descriptor kinds x 3 address widths; templates of 0..=3 descriptors; payloads 56..=60 and 253..=255",
@@ -87,8 +89,8 @@ prop("C11",
      level_text="Symbolic option programs: k calls, each a symbolic choice among the structure's option builders with symbolic arguments; flag field == OR of specification bits, every other byte unchanged; FADT via a one-step harness from an arbitrary prior flags value (unbounded in history). " + K,
      level_note=TRUST, bounds="k = 2..3 (quick), up to 9 (thorough)", outside="programs longer than k", jobs=14, timeout=600, mir=None)
 prop("C12",
-     level_text="SLIT n<=3 (4 thorough) and HMAT shapes up to 3x3 including single row/column, k<=2 (3 thorough) assignments with symbolic in-range indices and values (diagonal, mirrored, repeated included), compared with an array model; checksum and length asserted. " + K,
-     level_note=TRUST, bounds="see text", outside="n > 4, more than 3 assignments", jobs=14, timeout=600, mir=None)
+     level_text="SLIT n<=3 with k<=2 assignments (n=4, k=2 thorough) and HMAT shapes up to 3x3 including single row/column with k<=2 (3 thorough) assignments with symbolic in-range indices and values (diagonal, mirrored, repeated included), compared with an array model; checksum and length asserted. " + K,
+     level_note=TRUST, bounds="see text", outside="SLIT n > 4 or more than 2 assignments at n >= 3 (k = 3 at n = 3, 4 was tried: no verdict from either back end in 2400 s / 4800 s); HMAT more than 3 assignments", jobs=14, timeout=600, mir=None)
 prop("C13",
      level_text="Operation sequences (2 quick / 3 thorough) over {typed append, slice append, typed write, slice write, sink byte/word/dword/qword/vec} with symbolic values and write offsets symbolic over every in-range offset, against an array+length model with Length rewritten and byte 9 recomputed; out-of-range writes must be refused. " + K,
      level_note=TRUST + " 'Unchanged after a refused write' cannot be observed under Kani's abort-on-panic model.",
